@@ -122,6 +122,25 @@ pub fn record(a: &Args) {
                 run_pair::<GaussInt<i64>>(&mut t, &mut st, 2, &sp_from_dense(&m(&a1), 2, 2, &|_, _| false), &sp_from_dense(&m(&a2), a2.len(), 2, &|_, _| false), true); }
         }
     }
+    // the family d1 = diag(x, y) / antidiag(x, y) over Z[i] and Z[w] with x, y of coordinates 0..3 (coprime non-real pairs make the
+    // Smith form merge two pivots and re-normalise by a non-real unit), d2 = 0
+    {
+        let mut rng = a.rng(57);
+        let mut all = vec![];
+        for a0 in 0..=3i64 { for b0 in 0..=3i64 { for a1 in 0..=3i64 { for b1 in 0..=3i64 { if (a0, b0) != (0, 0) && (a1, b1) != (0, 0) { all.push((a0, b0, a1, b1)); } } } } }
+        { use rand::seq::SliceRandom; all.shuffle(&mut rng); }
+        let picks = if a.thorough() { 2000 } else { 60 };
+        for (k, (a0, b0, a1, b1)) in all.into_iter().take(picks).enumerate() {
+            st.cases += 1;
+            let anti = k % 2 == 0;
+            let z2 = SpMat::<GaussInt<i64>>::zero((1, 2));
+            let g = |x: GaussInt<i64>, y: GaussInt<i64>| if anti { SpMat::from_entries((2, 2), [(0, 1, x), (1, 0, y)]) } else { SpMat::from_entries((2, 2), [(0, 0, x), (1, 1, y)]) };
+            run_pair::<GaussInt<i64>>(&mut t, &mut st, 2, &g(GaussInt::new(a0, b0), GaussInt::new(a1, b1)), &z2, true);
+            let ze = SpMat::<EisenInt<i64>>::zero((1, 2));
+            let e = |x: EisenInt<i64>, y: EisenInt<i64>| if anti { SpMat::from_entries((2, 2), [(0, 1, x), (1, 0, y)]) } else { SpMat::from_entries((2, 2), [(0, 0, x), (1, 1, y)]) };
+            run_pair::<EisenInt<i64>>(&mut t, &mut st, 2, &e(EisenInt::new(a0, b0), EisenInt::new(a1, b1)), &ze, true);
+        }
+    }
     let pool: &[i64] = &[2, 3, 4, 6, 9, 2, 5, 12];
     run!(i64, 1, maxd, pool, true); run!(BigInt, 2, maxd, pool, false); run!(Ratio<i64>, 3, maxd, &[2, 3], true);
     run!(FF<3>, 4, maxd, &[], false); run!(FF<5>, 5, maxd, &[], false);
